@@ -66,10 +66,10 @@ def gen_direct(D, F=None, max_tasks=8, prefix='t', name='wf'):
     # outcomes first, so that the shape can be built knowing what fires
     outcomes = {}
     for nm in names:
-        r = D.int(0, 9)
-        if r < 6:
+        r = D.int(0, 19)
+        if r < 14:
             outcomes[nm] = [['ok', 'a']]
-        elif r < 7:
+        elif r < 16:
             outcomes[nm] = [['ok', 'b']]
         else:
             outcomes[nm] = [['err', 'boom-%s' % nm]]
@@ -123,6 +123,14 @@ def gen_direct(D, F=None, max_tasks=8, prefix='t', name='wf'):
         if F['joins'] and i >= 2 and r >= 6:
             k = D.int(1, min(4, i))
             srcs = sorted(D.subset(range(i), k, k))
+            prev_joins = [j for j in range(i)
+                          if prog['tasks'][names[j]]['join'] is not None]
+            if prev_joins and D.bool(0.4):
+                # chained joins: an earlier join feeds this one
+                pj = D.choice(prev_joins)
+                if pj not in srcs:
+                    srcs[D.int(0, len(srcs) - 1)] = pj
+                    srcs = sorted(set(srcs))
             jt = 'all'
             if F['partial_joins'] and D.bool(0.45):
                 jt = D.choice(['one', D.int(1, len(srcs))])
@@ -131,7 +139,23 @@ def gen_direct(D, F=None, max_tasks=8, prefix='t', name='wf'):
             for s in srcs:
                 added.append((names[s], add_edge(names[s], nm)))
             card = None if jt == 'all' else (1 if jt == 'one' else jt)
-            if card is not None and D.bool(0.7):
+            if D.bool(0.15):
+                # dead join: no inbound route fires, the join is never
+                # instantiated (joins downstream of it must notice)
+                for s_, a in added:
+                    if a and fires_static(s_, a[0], a[1]['guard']):
+                        oc = outcomes[s_][0]
+                        t = prog['tasks'][s_]
+                        t[a[0]].remove(a[1])
+                        if F['error_routes'] and D.bool(0.5):
+                            newc = 'on-error' if oc[0] == 'ok' \
+                                else 'on-success'
+                        else:
+                            newc = 'on-success' if oc[0] == 'ok' \
+                                else 'on-error'
+                            a[1]['guard'] = ['res', 'zz']
+                        t[newc].append(a[1])
+            elif card is not None and D.bool(0.7):
                 # keep the number of firing inbound routes at the join's
                 # cardinality: surplus routes are made non-firing.
                 firing = [(s, a) for s, a in added if a and
@@ -191,7 +215,7 @@ def gen_direct(D, F=None, max_tasks=8, prefix='t', name='wf'):
             prog['output'] = {'o_%s' % v: v for v in pubs}
 
     # bounded cycle: P -> l0 -> [l1] -> (l0 while c < K | lx when c >= K)
-    if F.get('cycles') and D.bool(0.25):
+    if F.get('cycles') and D.bool(0.15):
         prog['lang'] = 'yaql'
         K = D.int(1, 3)
         pi = D.int(0, n - 1)
@@ -223,7 +247,7 @@ def gen_direct(D, F=None, max_tasks=8, prefix='t', name='wf'):
         prog['has_cycle'] = True
 
     # failing expressions (syntactically valid, fail when evaluated)
-    if F.get('expr_failures') and D.bool(0.2):
+    if F.get('expr_failures') and D.bool(0.12):
         kind = D.choice(['publish', 'guard', 'input', 'output',
                          'publish-on-error'])
         nm = D.choice(prog['order'])
@@ -267,6 +291,96 @@ def gen_direct(D, F=None, max_tasks=8, prefix='t', name='wf'):
                 outcomes[nm] = [['never']]
 
     # rendering forms
+    for nm in prog['order']:
+        prog['tasks'][nm]['form'] = {
+            'single_as_string': D.bool(0.5), 'adv': D.bool(0.2),
+            'action': D.choice(['noop', 'echo', 'none'])}
+    return prog, outcomes
+
+
+# --------------------------------------------------------------------------
+# generation: focused fork/join shapes
+
+def gen_joinshape(D, F=None):
+    """Parallel branches feeding one or two (chained) joins, with routes
+    that fire or stay dead.  Returns (prog, outcomes)."""
+    F = F or DEFAULT_FEATS
+    prog = {'name': 'wf', 'type': 'direct', 'tasks': {}, 'order': [],
+            'input': {'f0': False}, 'defaults': None, 'output': None,
+            'lang': 'jinja' if (F['jinja'] and D.bool(0.25)) else 'yaql'}
+    outcomes = {}
+
+    def add(nm, oc=None):
+        prog['tasks'][nm] = new_task()
+        prog['order'].append(nm)
+        outcomes[nm] = [oc or ['ok', 'a']]
+        return nm
+
+    m = D.int(2, 4)
+    forked = D.bool(0.5)
+    if forked:
+        add('r')
+    ends = []
+    for i in range(m):
+        b = add('b%d' % i, ['err', 'boom'] if D.bool(0.15) else None)
+        if forked:
+            prog['tasks']['r']['on-success'].append({'to': b, 'guard': None})
+        end = b
+        if D.bool(0.4):
+            c = add('b%d_2' % i)
+            cl = 'on-complete' if D.bool(0.3) else (
+                'on-success' if outcomes[b][0][0] == 'ok' else 'on-error')
+            prog['tasks'][b][cl].append({'to': c, 'guard': None})
+            end = c
+        ends.append(end)
+
+    def route(src, dst, fires):
+        ok = outcomes[src][0][0] == 'ok'
+        if fires:
+            cl = D.choice(['on-success' if ok else 'on-error', 'on-complete'])
+            g = None
+            if D.bool(0.2):
+                g = ['nflag', 'f0']
+        else:
+            mode = D.int(0, 2)
+            if mode == 0:
+                cl, g = ('on-error' if ok else 'on-success'), None
+            elif mode == 1:
+                cl, g = ('on-success' if ok else 'on-error'), ['flag', 'f0']
+            else:
+                cl, g = 'on-complete', ['flag', 'f0']
+        prog['tasks'][src][cl].append({'to': dst, 'guard': g})
+
+    def mkjoin(nm, srcs, extra=None):
+        add(nm, ['err', 'boom'] if D.bool(0.1) else None)
+        k = len(srcs) + (1 if extra else 0)
+        jt = 'all'
+        if F.get('partial_joins', True) and D.bool(0.4):
+            jt = D.choice(['one', D.int(1, k)])
+        prog['tasks'][nm]['join'] = jt
+        dead_all = D.bool(0.25)
+        for s_ in srcs:
+            route(s_, nm, (not dead_all) and D.bool(0.75))
+        if extra:
+            prog['tasks'][extra]['on-success'].append(
+                {'to': nm, 'guard': None})
+
+    k1 = D.int(1, max(1, m - 1))
+    s1 = D.subset(ends, k1, k1)
+    mkjoin('j1', s1)
+    last = 'j1'
+    if D.bool(0.7):
+        rest = [e for e in ends if e not in s1] or ends
+        k2 = D.int(1, len(rest))
+        s2 = D.subset(rest, k2, k2)
+        mkjoin('j2', s2, extra='j1')
+        last = 'j2'
+    if D.bool(0.5):
+        add('tail')
+        prog['tasks'][last][D.choice(['on-success', 'on-complete'])].append(
+            {'to': 'tail', 'guard': None})
+    if D.bool(0.3):
+        prog['tasks'][last]['on-error'].append({'to': 'noop', 'guard': None})
     for nm in prog['order']:
         prog['tasks'][nm]['form'] = {
             'single_as_string': D.bool(0.5), 'adv': D.bool(0.2),
@@ -597,7 +711,43 @@ def tags(prog, outcomes=None):
             tg.add('multi_start')
     if outcomes and any(o[0][0] == 'err' for o in outcomes.values()):
         tg.add('has_failing_task')
+    if outcomes and prog['type'] == 'direct':
+        dead = set()
+        for nm, t in prog['tasks'].items():
+            if t.get('join') is None:
+                continue
+            ins = inbound(prog, nm)
+            if ins and not any(static_route(prog, outcomes, s_, nm)
+                               for s_ in ins):
+                dead.add(nm)
+        if dead:
+            tg.add('has_dead_join')
+        for nm, t in prog['tasks'].items():
+            if t.get('join') is not None and nm not in dead and \
+                    any(s_ in dead for s_ in inbound(prog, nm)):
+                tg.add('dead_join_feeds_join')
     return sorted(tg)
+
+
+def static_route(prog, outcomes, src, dst):
+    """Would src route to dst given its (first) outcome and the default
+    input?  (Static approximation used for generator statistics.)"""
+    oc = (outcomes.get(src) or [['ok', 'a']])[0]
+    if oc[0] not in ('ok', 'err'):
+        return True
+    st = 'SUCCESS' if oc[0] == 'ok' else 'ERROR'
+    res = oc[1] if oc[0] == 'ok' else None
+    cl = ['on-success' if st == 'SUCCESS' else 'on-error', 'on-complete']
+    for c in cl:
+        for e in clause_of(prog, src, c):
+            if e['to'] == dst:
+                try:
+                    if eval_guard(e.get('guard'), prog.get('input') or {},
+                                  res):
+                        return True
+                except ExprFailure:
+                    pass
+    return False
 
 
 def clause_of(prog, nm, c):
